@@ -181,15 +181,16 @@ def py_files_model(case):
     folders = list(dict.fromkeys(f[0] for f in fs))
     st = {d: (True, case["passes"]) for d in folders}
     table = set(map(lambda c: (tuple(c[0]), c[1]), case["table"]))
-    log = []
+    log, any_changes = [], False
     for p in range(1, case["passes"] + 1):
         todo = sorted({f for f in fs if st[f[0]][0] and st[f[0]][1] > 0})
         if not todo:
             break
         res = {f: (f, p) in table for f in todo}
+        any_changes = any_changes or any(res.values())
         st = {d: (any(res.get(f, False) for f in fs if f[0] == d), st[d][1] - 1) for d in folders}
         log.append(todo)
-    return log, any(c for c, _ in st.values())
+    return log, any_changes
 
 
 def g_file(f):
